@@ -29,6 +29,7 @@ func vC02Core(nthreads, per int) {
 	} else {
 		obs.SubscribeWithContext(context.Background(), vObs(rec, vFlatInt))
 	}
+	termsSent := 0
 	for t := 0; t < nthreads; t++ {
 		t := t
 		vGo(func() {
@@ -37,8 +38,10 @@ func vC02Core(nthreads, per int) {
 				case 0:
 					dest.NextWithContext(context.Background(), int64(t*10+k))
 				case 1:
+					termsSent++
 					dest.ErrorWithContext(context.Background(), vErrA)
 				default:
+					termsSent++
 					dest.CompleteWithContext(context.Background())
 				}
 			}
@@ -47,6 +50,11 @@ func vC02Core(nthreads, per int) {
 	vQuiesce()
 	vAssert(!rec.overlap, "core: two callbacks of one observer ran at the same time")
 	vCheckGrammar("core", rec)
+	if termsSent > 0 {
+		// values may be dropped under back-pressure in the eventually-safe mode; an error or a
+		// completion never is (C07: it reaches the subscriber exactly once)
+		vAssert(rec.terminals() == 1, "core: a terminal notification was emitted but the observer received none (error or completion lost)")
+	}
 	vReach("end")
 }
 
